@@ -356,4 +356,126 @@ def fold_serial_rule(m: Model):
     return out, [f'{m.loc(RULES, fg)} access.Serial._get_targets'] + ([f'{m.loc(RULES, fs)} access.Serial._should_apply'] if fs is not None else [])
 
 
+def fold_limit_guards(m: Model, lgs):
+    """A rule may stop offering targets because a world / constant limit is passed only in states in which a quit flag
+    is (or has been) put on the branch -- otherwise the branch ends open, unsaturated and looking limit-free.
+    The limit predicates (MaxWorlds / MaxConsts .is_reached / .is_exceeded) and every guarded target producer are folded
+    (MRO-bound rule mocks, the real predicates) over branch sizes below / at / above the limit:
+        suppressed(size, limit)  =>  flagged(size, limit)
+    where flagged is what the quit-flag emitters (ModalOperatorRule / NarrowQuantifierRule) do at that size."""
+    from .bind import bound_class
+    from .model import ClassRef
+    RULES = 'pytableaux.proof.rules'
+    out, consulted = [], set()
+    LIMIT = 3
+
+    def env():
+        it = Interp(dict(MaxWorlds='MaxWorlds', MaxConsts='MaxConsts', QuitFlag='QuitFlag', FilterHelper='FilterHelper', WorldIndex='WorldIndex',
+                         UnserialWorlds='UnserialWorlds', NodeCount='NodeCount', AdzHelper='AdzHelper',
+                         Target=lambda *a, **kw: dict(dict(a[0]) if a else {}, **kw), adds=lambda *groups, **kw: dict(adds=groups, **kw),
+                         group=lambda *a: tuple(a), anode=lambda w1, w2: ('access', w1, w2), EMPTY_SET=frozenset(), StopIteration=StopIteration,
+                         reversed=lambda x: iter(list(reversed(x)))), where='proof/rules.py limit guards')
+        keys = Obj('Key', flag='flag', world='world', world1='world1', world2='world2', sentence='sentence')
+        it.g['Node'] = Obj('Node', Key=keys)
+        return it
+
+    def helper(it, clsname, size):
+        "a MaxWorlds / MaxConsts instance with the real predicates, holding `size` worlds/constants against LIMIT"
+        H = bound_class(m, it, ClassRef(HELPERS, clsname), base=dict, consulted=consulted,
+                        only=('is_reached', 'is_exceeded'))
+        h = H()
+        h['ORIGIN'] = LIMIT
+        h.wconsts = {None: None}
+        h.quit_flag = lambda branch: {'flag': 'quit', 'is_flag': True}
+        return h
+
+    class B:
+        origin = 'ORIGIN'
+
+        def __init__(self, size, populated=True):
+            self.worlds = set(range(size))
+            self.populated = populated
+
+        def has(self, mp):
+            return self.populated
+
+        def new_world(self):
+            return 99
+
+        def __hash__(self):
+            return 1
+
+        def __eq__(self, o):
+            return self is o
+
+    def make_rule(it, clsref, size, flagged_already, helpername):
+        def getitem(s_, k):
+            return s_._helpers[k]
+        stub = lambda s_, node, branch: iter(['TARGET'])
+        R = bound_class(m, it, clsref, consulted=consulted,
+                        extra_ns=dict(__getitem__=getitem, _get_node_targets=stub))
+        r = R()
+        b = B(size)
+        h = helper(it, helpername, size)
+        if helpername == 'MaxConsts':
+            h.wconsts = {b: {0: set(range(size))}}
+        r._helpers = {helpername: h, 'QuitFlag': {b: flagged_already}, 'FilterHelper': Obj('FH', release=lambda n, br: None),
+                      'UnserialWorlds': {b: {1}}, 'WorldIndex': Obj('WI')}
+        r.tableau = Obj('tableau', history=[])
+        return r, b
+    node = {'world': 0}
+
+    class NodeM(dict):
+        pass
+    node = NodeM(world=0)
+    # flag emitters and silent suppressors
+    emitters = [(ClassRef(RULES, 'ModalOperatorRule'), 'MaxWorlds'), (ClassRef(RULES, 'NarrowQuantifierRule'), 'MaxConsts')]
+    suppressors = [(ClassRef(RULES, 'AccessNodeRule'), 'MaxWorlds'), (ClassRef(RULES, 'access.Serial'), 'MaxWorlds')]
+    table = {}
+    for clsref, hname in emitters + suppressors:
+        for size in (LIMIT - 1, LIMIT, LIMIT + 1):
+            for already in (False, True):
+                it = env()
+                try:
+                    r, b = make_rule(it, clsref, size, already, hname)
+                    if clsref.qualname == 'access.Serial':
+                        got = list(r._get_targets(b))
+                    else:
+                        got = list(r._get_targets(node, b))
+                    err = None
+                except Raised as e:
+                    got, err = None, e.text
+                except (TypeError, KeyError, AttributeError, IndexError, ValueError) as e:
+                    got, err = None, f'{type(e).__name__}: {e}'
+                table[clsref.qualname, size, already] = (got, err)
+    for clsref, hname in emitters:
+        for size in (LIMIT - 1, LIMIT, LIMIT + 1):
+            got, err = table[clsref.qualname, size, False]
+            got2, err2 = table[clsref.qualname, size, True]
+            case = f'{clsref.qualname}: {size} of {LIMIT} {"worlds" if hname == "MaxWorlds" else "constants"}'
+            if err or err2:
+                out.append((False, case, f'raises {err or err2}'))
+                continue
+            normal = got == ['TARGET']
+            flag = len(got) == 1 and isinstance(got[0], dict) and got[0].get('flag') == 'quit'
+            ok = (normal or flag) and (got2 == ['TARGET'] if normal else got2 == [])
+            out.append((ok, case, f'with no flag yet it offers {got!r}, with a flag already on the branch {got2!r}; expected either the rule\'s own targets '
+                        f'or exactly one quit-flag target (none once flagged)'))
+    for clsref, hname in suppressors:
+        em = emitters[0][0].qualname
+        for size in (LIMIT - 1, LIMIT, LIMIT + 1):
+            got, err = table[clsref.qualname, size, False]
+            case = f'{clsref.qualname}: {size} of {LIMIT} worlds'
+            if err:
+                out.append((False, case, f'raises {err}'))
+                continue
+            suppressed = not got
+            egot, _ = table[em, size, False]
+            flagged = bool(egot) and isinstance(egot[0], dict) and egot[0].get('flag') == 'quit'
+            ok = not suppressed or flagged
+            out.append((ok, case, f'offers {"nothing" if suppressed else "its targets"} while the modal rules {"put a quit flag" if flagged else "carry on without a flag"} at that size'
+                        + ('' if ok else ': the branch can end open with this rule switched off and no quit flag to say so')))
+    return out, sorted(consulted)
+
+
 ALL = [fold_nodeconsts, fold_extended_quantifier_targets, fold_filter_cache, fold_world_index, fold_unserial, fold_branch_value_hook, fold_counts, fold_serial_rule]
